@@ -193,6 +193,15 @@ def mergeAssignsFor (ty : String) : List String :=
    "mi, mj := merged.Items[i].ModifiedAt, merged.Items[j].ModifiedAt",
    "merged.Items = []arvados." ++ ty ++ "{}"]
 
+/-- Return values of generated_<T>List: the callback returns the backend's error before merging and
+otherwise the uuids of all returned items; the sort comparator is `mj.Before(mi)` with
+`mi, mj := …[i].ModifiedAt, …[j].ModifiedAt`, i.e. "modified_at desc" (`tsGe`); the function returns
+the merged list together with splitListRequest's error. -/
+def mergeReturns : List String := ["nil, err", "uuids, nil", "mj.Before(mi)", "merged, err"]
+
+theorem tie_mergeReturns : collReturns = mergeReturns ∧ ctrReturns = mergeReturns ∧ crReturns = mergeReturns ∧
+    grpReturns = mergeReturns ∧ specReturns = mergeReturns ∧ userReturns = mergeReturns := by decide
+
 theorem tie_coll : collSkeleton = mergeSkeletonFor "Collection" ∧ collAssigns = mergeAssignsFor "Collection" ∧
     collEntry = ["conn.generated_CollectionList(ctx, options)"] := by decide
 theorem tie_ctr : ctrSkeleton = mergeSkeletonFor "Container" ∧ ctrAssigns = mergeAssignsFor "Container" ∧
